@@ -287,7 +287,15 @@ def gen_table(rng, tier, family=None):
             years     clear + numeric column names over numeric columns (the sniffer votes `no header`)
             capsrow   clear + header-less text table whose first row is capitalised, the others lower
                       case (the sniffer votes `header`)
-            unamb     the class of `sniff_agrees`: delimiter and header can both be left to the sniffer"""
+            unamb     the class of `sniff_agrees`: delimiter and header can both be left to the sniffer
+            unambq    the class of `sniff_agrees_quoted` (UNAMBIGUOUS tables, see design/C09.md): unamb with
+                      quoting - every cell / only the numeric cells / only the header / cells at random
+                      written between quotes, numbers of varying width, column names in lower case,
+                      Capitalised, UPPER case, mixed, or quoted numbers (`"1980"`); in a table without
+                      header the cells of the first row are not quoted (a quoted first row reads as names)"""
+    uq = family == "unambq"
+    if uq:
+        family = "unamb"
     big = tier == "thorough"
     if family is None:
         family = "general"
@@ -316,6 +324,8 @@ def gen_table(rng, tier, family=None):
         for j in range(ncols):
             if family == "years":
                 h = rng.choice(YEARS)
+            elif family == "unamb" and uq:
+                h = b"x"            # replaced below (one style for the whole header)
             elif family == "unamb":
                 h = rng.choice(NAMES) if rng.chance(0.8) else b"n_%d" % j
             else:
@@ -356,10 +366,53 @@ def gen_table(rng, tier, family=None):
     if family == "unamb":
         qprob = 0.0
     hook = gen_hook(rng, ncols, kinds)
-    return {"ncols": ncols, "kinds": kinds, "header": header, "rows": rows, "out": out, "delim": d,
-            "trim": rng.chance(0.3), "keep": rng.chance(0.2), "qprob": qprob,
-            "eol": rng.choice([b"\n", b"\n", b"\r\n"]), "final_eol": rng.chance(0.8),
-            "filter": hook, "loose": loose, "family": family}
+    T = {"ncols": ncols, "kinds": kinds, "header": header, "rows": rows, "out": out, "delim": d,
+         "trim": rng.chance(0.3), "keep": rng.chance(0.2), "qprob": qprob,
+         "eol": rng.choice([b"\n", b"\n", b"\r\n"]), "final_eol": rng.chance(0.8),
+         "filter": hook, "loose": loose, "family": family}
+    if uq:
+        T["family"] = "unambq"
+        T["keep"] = False           # (KEEP_QUOTES turns a quoted number into a text: another table)
+        qmode = rng.choice(["all", "all", "numeric", "numeric", "header", "random", "none"])
+        style = rng.choice(["lower", "lower", "cap", "upper", "mixed", "years"])
+        T["qmode"], T["hstyle"] = qmode, style
+        T["qprob"] = {"all": 1.0, "numeric": 1.0, "header": 0.0, "random": 0.5, "none": 0.0}[qmode]
+        T["qprob_header"] = {"all": 1.0, "numeric": 0.0, "header": 1.0, "random": 0.5, "none": 0.0}[qmode]
+        if header is None:
+            T["qprob_first"] = 0.0  # a quoted first row would read as column names (`"1980"`)
+        else:
+            if style == "years":    # numbers as names: unambiguous only between quotes
+                T["qprob_header"] = 1.0
+            T["header"] = [uq_name(rng, style, j) for j in range(ncols)]
+        if rng.chance(0.5):         # numbers of clearly different widths in every column
+            T["rows"] = [[wide_num(rng) for _ in r] for r in rows]
+    return T
+
+
+UQ_LOWER = [b"length", b"width", b"height", b"x", b"sepal length", b"ph", b"class", b"mcg", b"a1", b"shell weight",
+            b"weight", b"n", b"petal-width", b"v_2"]
+
+
+def uq_name(rng, style, j):
+    """a column name of the family `unambq`: never blank, never a number unless style == years"""
+    if style == "years":
+        return rng.choice(YEARS[:3] + [b"1980", b"1999", b"2024"])
+    if style == "mixed":
+        style = rng.choice(["lower", "cap", "upper"])
+    w = rng.choice(UQ_LOWER) if rng.chance(0.85) else b"c_%d" % j
+    return w if style == "lower" else w.capitalize() if style == "cap" else w.upper()
+
+
+def wide_num(rng):
+    """a plain number (digits, sign, dot) of 1 to 9 characters"""
+    k = rng.below(4)
+    if k == 0:
+        return b"%d" % rng.below(10)
+    if k == 1:
+        return b"%d" % rng.between(10, 999)
+    if k == 2:
+        return b"%d" % rng.between(-99999, 99999)
+    return ("%.*f" % (rng.between(1, 3), rng.between(-999999, 999999) / 100.0)).encode()
 
 
 def render_line(rng, cells, d, qprob, noquote=()):
@@ -383,11 +436,12 @@ def render_csv(rng, T):
     noq = [j for j, k in enumerate(T["kinds"]) if k == "n"] if T.get("keep") else ()
     lines, masks = [], []
     if T["header"] is not None:
-        l, m = render_line(rng, T["header"], T["delim"], T["qprob"])
+        l, m = render_line(rng, T["header"], T["delim"], T.get("qprob_header", T["qprob"]))
         lines.append(l)
         masks.append(m)
-    for r in T["rows"]:
-        l, m = render_line(rng, r, T["delim"], T["qprob"], noq)
+    for i, r in enumerate(T["rows"]):
+        qp = T.get("qprob_first", T["qprob"]) if i == 0 else T["qprob"]
+        l, m = render_line(rng, r, T["delim"], qp, noq)
         lines.append(l)
         masks.append(m)
         if rng.chance(0.03):
@@ -418,11 +472,16 @@ def seen_fields(T):
     return out
 
 
-def expected_csv(T, alt=False):
+def expected_csv(T, alt=False, prior=None):
     """What the table says the import must produce (None = outside the oracle's class).
     Call after render_csv (the quoting decisions matter under KEEP_QUOTES).
     alt: the other reading of the first line (a header line read as data / the first data row read
-    as header) - what must come out when the header is left to the sniffer and it votes the other way."""
+    as header) - what must come out when the header is left to the sniffer and it votes the other way.
+    prior: the dump of the dataframe the table is read INTO (a history on one object; None = a fresh
+    object): the import has to produce exactly the data rows of this table, under the columns the object
+    already has (names, domains; the states of text columns grow) and with the class map continued
+    (labels seen before keep their id).  A column whose cells are all blank has no domain: it is left
+    out of the examples."""
     recs = seen_fields(T)
     if T.get("keep") and any(q and T["kinds"][j] == "n" for m in T["qmask"][(T["header"] is not None):]
                              for j, q in enumerate(m)):
@@ -448,7 +507,12 @@ def expected_csv(T, alt=False):
         header, data = None, [h for h in hooked if h is not None]
     if not data:
         return "exc"
-    if any(not trim(c) for c in data[0]):
+    if any(len(r) != T["ncols"] for r in data):
+        return None
+    # a column without any value has no domain; one whose first value comes after the first row changes
+    # the number of inputs half way: outside the oracle's class
+    blank = [all(not trim(r[j]) for r in data) for j in range(T["ncols"])]
+    if any(not trim(r[j]) and not blank[j] for r in data for j in range(T["ncols"])):
         return None
     if any(T["kinds"][j] == "t" and is_numeric_text(c) for j, c in enumerate(data[0])):
         return None       # (the hook removed the first row) a text column would be taken for numbers
@@ -457,14 +521,27 @@ def expected_csv(T, alt=False):
     k = T["out"]
     if k is not None and T["kinds"][k] == "t" and any(is_numeric_text(r[k]) for r in data):
         return None       # (the hook moved cells) a numeric looking label is read as a number
-    kinds = rotate(T["kinds"], k)
+    kinds = rotate(["v" if blank[j] else kd for j, kd in enumerate(T["kinds"])], k)
     names = [hx(trim(h)) for h in rotate(header, k)] if header is not None else ["-"] * T["ncols"]
     if k is None:
         names = ["-"] + names
         kinds = ["v"] + kinds
     classes = []
-    ex = []
     states = [set() for _ in kinds]
+    if prior is not None and prior["cols"]:
+        # the object has its columns: names and domains are the ones it has
+        if len(prior["cols"]) != len(kinds):
+            return None
+        for j, (kd, (pn, pd, ps)) in enumerate(zip(kinds, prior["cols"])):
+            if pd != (0 if kd == "v" else 2 if (kd == "n" or j == 0) else 3):
+                return None                      # another schema: outside the oracle's class
+            states[j] = set(ps)
+        names = [c[0] for c in prior["cols"]]
+    if prior is not None:
+        classes = [unhx(c) for c in prior["classes"][:-1]]
+        if classes and (k is None or T["kinds"][k] != "t" or blank[k]):
+            return None                          # numbers into a dataframe that has class labels
+    ex = []
     for r in data:
         r = rotate(r, k)
         if k is None:
@@ -472,7 +549,8 @@ def expected_csv(T, alt=False):
         vals = []
         for j, c in enumerate(r):
             if kinds[j] == "v":
-                vals.append("v")
+                if j == 0:
+                    vals.append("v")
             elif kinds[j] == "n":
                 vals.append(stod_bits(c))
             elif j == 0:
@@ -507,9 +585,11 @@ EXTS = [b".csv", b".CSV", b".txt", b".dat", b"", b".xrff", b".XRFF", b".Xrff", b
 VOID_TYPES = [b"date", b"relational", b"", None, b"Numeric", b"STRING", b"int", b"nominal "]
 
 
-def render_xrff(rng, T):
+def render_xrff(rng, T, prior=None):
     """The same logical table as XRFF text; returns (bytes, expected).  T["xinfo"] describes the
-    header that was written (class attribute position, declared types)."""
+    header that was written (class attribute position, declared types).
+    prior: the dump of the dataframe the document is read into (see expected_csv): the columns are those
+    of the document, the class map is continued."""
     k = T["out"]
     nc = T["ncols"]
     types = []
@@ -528,6 +608,8 @@ def render_xrff(rng, T):
         types[jv] = rng.choice(VOID_TYPES)
         void.add(jv)
     names = [trim(h) for h in T["header"]] if T["header"] is not None else [b"a%d" % j for j in range(nc)]
+    if T.get("xnames"):             # (histories: the schema has names whether or not a table shows them)
+        names = [trim(h) for h in T["xnames"]]
     explicit = k is not None and (k != nc - 1 or rng.chance(0.5))
     kk = nc - 1 if k is None else k
     T["xinfo"] = {"class": ("default" if not explicit else "first" if kk == 0 else "last" if kk == nc - 1
@@ -571,6 +653,10 @@ def render_xrff(rng, T):
     lbs = rotate(labelsets, kk)
     nm = rotate(names, kk)
     classes, ex = [], []
+    if prior is not None:
+        classes = [unhx(c) for c in prior["classes"][:-1]]
+        if classes and kinds[0] != "t":
+            return data, None      # numbers into a dataframe that has class labels
     for r in rows:
         r = rotate(r, kk)
         vals = []
@@ -639,7 +725,7 @@ def oracle_applies(T):
     left to the sniffer: the class of `sniff_agrees`"""
     dmode, hmode = T.get("dmode", "explicit"), T.get("hmode", "explicit")
     if hmode != "explicit":
-        return T["family"] == "unamb"
+        return T["family"] in ("unamb", "unambq")
     return dmode == "explicit" or T["family"] != "general"
 
 
@@ -703,7 +789,7 @@ def parse_syms(s, width):
     return [(g[0], g[1], g[2], sorted(g[3])) for g in groups], loose, P, cols
 
 
-def check_symbols(a, strong):
+def check_symbols(a, strong, history=False):
     """The property's own statement about setup_terminals, read off vita's answer alone: one variable
     per input column that has a domain, in column order, named after it, the j-th one asking for input j
     (and a real interpreter returning that cell); the constants of a column's states right after its
@@ -717,7 +803,7 @@ def check_symbols(a, strong):
         return "%d variables for %d input columns with a domain" % (len(groups), len(want))
     for j, ((name, cat, rows, ks), (i, (cname, dom, ns))) in enumerate(zip(groups, want)):
         exp_name = cname if cname != "-" else hx(b"X%d" % i)
-        if name != exp_name:
+        if name != exp_name and not history:      # (history: the names are those of the first import)
             return "variable %d is named %s, its column (%d) %s" % (j, name, i, exp_name)
         if cat == "u" or int(cat) > 10 ** 6:
             return "variable %d has no category" % j
@@ -730,7 +816,7 @@ def check_symbols(a, strong):
                 return "variable %d: interpreter returns %s, the example holds %s" % (j, interp, direct)
             if direct[0] != {1: "i", 2: "d", 3: "s"}[dom]:
                 return "variable %d of a column with domain %d evaluates to %s" % (j, dom, direct)
-        if len(ks) != ns:
+        if len(ks) != ns and not history:         # (history: a later import adds states / replaces the columns)
             return "column %d has %d states, %d constants follow its variable" % (i, ns, len(ks))
         for kn, kc, kv in ks:
             if kc != cat:
@@ -877,6 +963,371 @@ def shrink_table(S, T, kind="csv", budget=70):
     return best, ln, a, ex
 
 
+# ---------------------------------------------------------------------------
+# histories: several imports into ONE dataframe object
+# ---------------------------------------------------------------------------
+
+CSV_EXTS = [b".csv", b".CSV", b".txt", b".dat", b""]
+XRFF_EXTS = [b".xrff", b".XRFF", b".xml", b".Xml"]
+
+
+def params_tokens(T):
+    """<delim> <hdr> <trim> <keep> <oidx> <hook> of a csv2 / file / hist-csv request"""
+    return csv_line(T, b"").split(" ", 1)[1].rsplit(" ", 1)[0]
+
+
+def gen_history(rng, tier):
+    """A history on one dataframe object: two or three tables of the SAME schema (kinds of the columns,
+    output index, label pool; different rows: a training table, then a test / validation table) read one
+    after the other - with and without header line, explicit and sniffed dialect, other delimiter /
+    quoting / line ends, through read_csv(stream), read_xrff(stream) or read(path); clear() in between or
+    not; on a plain dataframe or on the dataframes of a src_problem (setup_terminals after the first
+    import; the later tables into the training dataframe or - after clone_schema - into the validation
+    one).  Returns the description H; history_lines(H, ...) renders it."""
+    fam = rng.choice(["general", "general", "general", "clear", "unamb", "unambq"])
+    nimp = 2 if rng.chance(0.7) else 3
+    while True:
+        T0 = gen_table(rng, tier, fam)
+        if not T0["loose"] and len(T0["rows"]) >= 2 * nimp:
+            break
+    T0["keep"] = False
+    if T0["header"] is None:        # the schema has names; each table shows them or not
+        T0["header"] = [(b"n_%d" % j if fam.startswith("unamb") else b"col%d" % j) for j in range(T0["ncols"])]
+    if rng.chance(0.75):
+        T0["filter"] = "0"
+    elif any(op in "UX" for op, _ in parse_hook(T0["filter"])):
+        T0["filter"] = "w3_1"
+    blankcol = None
+    if fam in ("general", "clear") and T0["ncols"] >= 3 and rng.chance(0.2):
+        blankcol = rng.choice([j for j in range(T0["ncols"]) if j != T0["out"]])
+        T0["rows"] = [r[:blankcol] + [rng.choice([b"", b" ", b""])] + r[blankcol + 1:] for r in T0["rows"]]
+    # the rows are dealt out to the tables
+    n = len(T0["rows"])
+    cuts = sorted(rng.between(2, n - 2) for _ in range(nimp - 1)) if n >= 2 * nimp else []
+    bounds = [0] + cuts + [n]
+    for i in range(1, len(bounds)):
+        bounds[i] = max(bounds[i], bounds[i - 1] + 2)
+    bounds[-1] = max(bounds[-1], n)
+    tables = []
+    for i in range(nimp):
+        rows = T0["rows"][bounds[i]:min(bounds[i + 1], n)][:17]
+        if len(rows) < 2:
+            rows = T0["rows"][-2:]
+        T = dict(T0, rows=rows, xnames=T0["header"])
+        T["header"] = T0["header"] if rng.chance(0.6) else None
+        if fam == "general":
+            T["delim"] = rng.choice(DELIMS)
+            T["qprob"] = rng.choice([0.0, 0.0, 0.2, 1.0])
+            T["dmode"], T["hmode"] = "explicit", "explicit"
+        else:
+            T["delim"] = rng.choice(DELIMS[:5])
+            T["dmode"] = rng.choice(["explicit", "sniffed"])
+            T["hmode"] = rng.choice(["explicit", "explicit", "sniffed"]) if fam.startswith("unamb") else "explicit"
+        if fam == "unambq":
+            T.pop("qprob_first", None)
+            if T["header"] is None:
+                T["qprob_first"] = 0.0
+        T["trim"] = rng.chance(0.3)
+        T["eol"] = rng.choice([b"\n", b"\n", b"\r\n"])
+        T["final_eol"] = rng.chance(0.8)
+        tables.append(T)
+    via = "prob" if rng.chance(0.35) and T0["ncols"] >= 2 else "df"      # (a problem needs an input column)
+    steps = []
+    xr_ok = blankcol is None
+    for i, T in enumerate(tables):
+        if i > 0 and rng.chance(0.3):
+            steps.append({"k": "clear"})
+        if via == "prob" and i == 1 and rng.chance(0.5):
+            steps.append({"k": "clone"})
+        k = rng.below(10)
+        if k < 6:
+            steps.append({"k": "csv", "t": i})
+        elif k < 8:
+            steps.append({"k": "file", "t": i, "ext": rng.choice(CSV_EXTS), "fmt": "csv"})
+        elif k == 8 and xr_ok:
+            steps.append({"k": "xrff", "t": i})
+        elif xr_ok:
+            steps.append({"k": "file", "t": i, "ext": rng.choice(XRFF_EXTS), "fmt": "xrff"})
+        else:
+            steps.append({"k": "csv", "t": i})
+    if rng.chance(0.1):
+        steps.append({"k": "clear"})
+    return {"family": fam, "via": via, "typing": rng.below(2), "tables": tables, "steps": steps,
+            "blankcol": blankcol}
+
+
+def dump_state(e):
+    """the part of an expected / parsed dump that the next import starts from"""
+    return {"cols": e["cols"], "classes": e["classes"]}
+
+
+def history_lines(H, seed=None, rng=None):
+    """-> (request line for the harness, steps with their bytes, expectations per step).
+    An expectation is a dump (dict), "exc", "empty" (clear / clone: no examples) or None (outside the
+    oracle's class: from there on the history is compared with the model only)."""
+    r = rng if rng is not None else C.SplitMix(seed)
+    toks, rendered, exps = [], [], []
+    state = None                    # dump of the object so far (None = fresh); False = unknown
+    train_state = None
+    for st in H["steps"]:
+        k = st["k"]
+        if k in ("clear", "clone"):
+            toks.append(k)
+            rendered.append({"k": k})
+            if k == "clone":
+                state = train_state
+            exps.append("empty")
+            continue
+        T = H["tables"][st["t"]]
+        xr = k == "xrff" or st.get("fmt") == "xrff"
+        if xr:
+            data, exp = render_xrff(r, T, prior=state if state else None)
+            if state is False:
+                exp = None
+        else:
+            data = render_csv(r, T)
+            exp = None
+            if state is not False and oracle_applies(T):
+                exp = expected_csv(T, prior=state)
+        if k == "csv":
+            toks.append("csv %s %s" % (params_tokens(T), hx(data)))
+        elif k == "xrff":
+            toks.append("xrff %s %s" % (T["filter"], hx(data)))
+        else:
+            toks.append("file %s %s %s" % (hx(st["ext"]), params_tokens(T), hx(data)))
+        rendered.append({"k": k, "data": data, "xrff": xr, "ext": st.get("ext"), "T": T})
+        exps.append(exp)
+        if isinstance(exp, dict):
+            state = dump_state(exp)
+            if H["via"] == "prob" and not any(x["k"] == "clone" for x in rendered):
+                train_state = state
+        else:
+            state = False           # an exception ends the history; an unknown state ends the oracle
+    line = "hist %s %d %d %s" % (H["via"], H["typing"], len(toks), " ".join(toks))
+    return line, rendered, exps
+
+
+def parse_hist_line(line):
+    """`hist <via> <typing> <n> steps...` -> (via, typing, [(kind, tokens)])"""
+    t = line.split()
+    via, typing, n = t[1], int(t[2]), int(t[3])
+    at, steps = 4, []
+    for _ in range(n):
+        k = t[at]
+        w = {"csv": 8, "xrff": 3, "file": 9}.get(k, 1)
+        steps.append((k, t[at + 1:at + w]))
+        at += w
+    return via, typing, steps
+
+
+def hist_xml_payloads(line):
+    """the byte strings (hex) of a history whose tinyxml2 document the model needs"""
+    return [tk[-1] for k, tk in parse_hist_line(line)[2] if k in ("xrff", "file")]
+
+
+def history_model_line(line, docs):
+    """the request for the Lean driver: XRFF documents travel as the token list of the harness' `xdoc`
+    (docs: hex payload -> answer of `xdoc`)"""
+    via, typing, steps = parse_hist_line(line)
+    toks = []
+    for k, tk in steps:
+        if k in ("xrff", "file"):
+            d = docs.get(tk[-1], "").split()
+            if not d or d[0] != "doc":
+                return None
+            keep = tk if k == "file" else tk[:-1]      # (the model's read_xrff starts from the document)
+            toks.append("%s %s %d %s" % (k, " ".join(keep), len(d) - 1, " ".join(d[1:])))
+        else:
+            toks.append(" ".join([k] + tk))
+    return "hist %s %d %d %s" % (via, typing, len(steps), " ".join(toks))
+
+
+def hist_parts(a):
+    """`hist | p1 | p2 ...` -> [p1, p2, ...] (None when the answer is not a history answer)"""
+    if not a.startswith("hist"):
+        return None
+    return [x.strip() for x in a.split(" | ")[1:]]
+
+
+def hist_oracle(line, exps, a):
+    """The property's own statement about a history, read off vita's answer: every import yields exactly
+    the data rows of ITS table (the examples of earlier imports are gone, none is added), under the columns
+    the object had, with the class map continued; clear() leaves no example; the variables set up after
+    the first import still ask for the input their column is stored in.  -> None or a description."""
+    parts = hist_parts(a)
+    if parts is None:
+        return "no history answer: " + a[:200]
+    via, typing, steps = parse_hist_line(line)
+    nimp = 0
+    for i, ((k, _), exp) in enumerate(zip(steps, exps)):
+        if i >= len(parts):
+            return "step %d (%s) has no answer: the history stopped after %r" % (i + 1, k, parts[-1][:80] if parts else "")
+        pa = parts[i]
+        what = "step %d (%s%s)" % (i + 1, k, "" if k in ("clear", "clone") else
+                                   ", import no. %d into the same object" % (nimp + 1))
+        if k not in ("clear", "clone"):
+            nimp += 1
+        if exp is None:
+            return None             # from here on: model only
+        if exp == "empty":
+            d = parse_dump(pa) if pa.startswith("ok") else None
+            if d is None or d["examples"]:
+                return what + ": examples left / error: " + pa[:160]
+            continue
+        d = oracle_diff(exp, pa)
+        if d:
+            return what + ": " + d
+        if exp == "exc":
+            return None
+    if via == "prob" and len(parts) > len(steps):
+        sy = parts[len(steps)]
+        first = [parse_dump(x) for x in parts[:len(steps)] if x.startswith("ok ret=") and not x.startswith("ok ret=0 ")]
+        # the variables were made for the columns of the first import: they must fit the examples of the last
+        # one when the domains of the columns are still the same (the table oracle above says whether they
+        # have to be)
+        if sy.startswith("ok S") and first and first[0] is not None and \
+                [c[1] for c in first[0]["cols"]] == [c[1] for c in parse_syms(sy, 3)[3]]:
+            bad = check_symbols(sy, typing == 1, history=True)
+            if bad:
+                return "variables set up after the first import, evaluated on the examples of the last one: " + bad
+    return None
+
+
+def hist_same(m, a):
+    """model answer vs code answer of a `hist` request"""
+    pm, pc = hist_parts(m), hist_parts(a)
+    if pm is None or pc is None or len(pm) != len(pc):
+        return False
+    for x, y in zip(pm, pc):
+        if x.startswith("ok ret") and y.startswith("ok ret"):
+            dx, dy = parse_dump(x), parse_dump(y)
+            if dx is None or dy is None or first_diff(dx, dy) is not None:
+                return False
+        elif x.startswith("ok S") and y.startswith("ok S"):
+            gm, lm, Pm, cm = parse_syms(x, 2)
+            gc, lc, Pc, cc = parse_syms(y, 3)
+            strip = lambda gs: [(n, c, [(r[0], r[1]) for r in rows], ks) for n, c, rows, ks in gs]
+            if not (strip(gm) == strip(gc) and lm == lc and Pm == Pc and cm == cc):
+                return False
+        elif x.startswith("ok") or y.startswith("ok"):
+            return False
+        elif outcome_class(x) != outcome_class(y) and x != y:
+            return False
+    return True
+
+
+def shrink_history(S, H, budget=90):
+    """Greedy reduction of a history on which vita and the history oracle disagree: fewer steps, then fewer
+    rows per table, then fewer columns, as long as the disagreement stays.  -> (H, line, answer, rendered, exps, diff) or None"""
+    def attempt(H2):
+        ln, rend, exps = history_lines(H2, seed=4242)
+        ans, _ = S.cpp([ln])
+        a = ans[0] if ans else "died"
+        d = "aborts under the sanitizers" if a.startswith("died") else hist_oracle(ln, exps, a)
+        return d, ln, a, rend, exps
+    d, ln, a, rend, exps = attempt(H)
+    if not d:
+        return None
+    best = H
+    used = 1
+    changed = True
+    while changed and used < budget:
+        changed = False
+        for i in range(len(best["steps"]) - 1, -1, -1):          # drop a step
+            if len([s for s in best["steps"] if s["k"] not in ("clear", "clone")]) <= 1 and \
+                    best["steps"][i]["k"] not in ("clear", "clone"):
+                continue
+            cand = dict(best, steps=best["steps"][:i] + best["steps"][i + 1:])
+            d2, l2, a2, r2, e2 = attempt(cand)
+            used += 1
+            if d2:
+                best, d, ln, a, rend, exps, changed = cand, d2, l2, a2, r2, e2, True
+            if used >= budget:
+                break
+        for ti in range(len(best["tables"])):                    # fewer rows
+            T = best["tables"][ti]
+            lo = 2 if T.get("hmode", "explicit") != "explicit" else 1
+            n = len(T["rows"])
+            for chunk in (n // 2, 1):
+                i = 0
+                while chunk >= 1 and i < len(best["tables"][ti]["rows"]) and used < budget:
+                    rows = best["tables"][ti]["rows"]
+                    nr = rows[:i] + rows[i + chunk:]
+                    if len(nr) < lo:
+                        break
+                    tabs = list(best["tables"])
+                    tabs[ti] = dict(tabs[ti], rows=nr)
+                    cand = dict(best, tables=tabs)
+                    d2, l2, a2, r2, e2 = attempt(cand)
+                    used += 1
+                    if d2:
+                        best, d, ln, a, rend, exps, changed = cand, d2, l2, a2, r2, e2, True
+                    else:
+                        i += chunk
+        j = 0                                                     # fewer columns (the same one in every table)
+        while best["tables"] and j < best["tables"][0]["ncols"] and best["tables"][0]["ncols"] > 2 and used < budget:
+            T0 = best["tables"][0]
+            if j == T0["out"] or any(op in "cUX" for T in best["tables"] for op, _ in parse_hook(T["filter"])):
+                j += 1
+                continue
+            cut = lambda xs: None if xs is None else xs[:j] + xs[j + 1:]
+            tabs = [dict(T, ncols=T["ncols"] - 1, kinds=cut(T["kinds"]), rows=[cut(r) for r in T["rows"]],
+                         header=cut(T["header"]), xnames=cut(T.get("xnames")),
+                         out=(T["out"] - 1 if T["out"] is not None and T["out"] > j else T["out"]))
+                    for T in best["tables"]]
+            bc = best.get("blankcol")
+            cand = dict(best, tables=tabs, blankcol=None if bc == j else bc - 1 if bc is not None and bc > j else bc)
+            d2, l2, a2, r2, e2 = attempt(cand)
+            used += 1
+            if d2:
+                best, d, ln, a, rend, exps, changed = cand, d2, l2, a2, r2, e2, True
+            else:
+                j += 1
+    return best, ln, a, rend, exps, d
+
+
+def describe_history(rendered):
+    out = []
+    for st in rendered:
+        if st["k"] in ("clear", "clone"):
+            out.append({"call": "clear()" if st["k"] == "clear" else "validation.clone_schema(training)"})
+        else:
+            T = st["T"]
+            out.append({"call": {"csv": "read_csv(stream)", "xrff": "read_xrff(stream)"}.get(st["k"], "read(path%s)" % (st.get("ext") or b"").decode()),
+                        "params": "delimiter %s, header %s, trim_ws %d, output_index %s, hook %s"
+                                  % (T.get("dmode", "explicit"), ("yes" if T["header"] is not None else "no")
+                                     if T.get("hmode", "explicit") == "explicit" else "guessed", T["trim"], T["out"], T["filter"]),
+                        "file": st["data"].decode("latin1")})
+    return out
+
+
+def count_history(chk, H, rendered, exps, a):
+    """the distribution of the histories (evidence)"""
+    f = "hist:"
+    seq = ">".join(("xrff" if st.get("xrff") else "csv") + {"csv": "", "xrff": "", "file": "(path)"}[st["k"]]
+                   if st["k"] not in ("clear", "clone") else st["k"] for st in rendered)
+    chk.count(f + "calls=" + seq)
+    chk.count(f + "via=" + H["via"] + ("+clone_schema" if any(st["k"] == "clone" for st in rendered) else ""))
+    chk.count(f + "family=" + H["family"])
+    imps = [st for st in rendered if st["k"] not in ("clear", "clone")]
+    chk.count(f + "imports=%d" % len(imps))
+    chk.count(f + "header_lines=" + ">".join("yes" if st["T"]["header"] is not None else "no" for st in imps))
+    for st in imps[1:]:
+        T = st["T"]
+        if not st.get("xrff"):
+            chk.count(f + "later_csv_import:delimiter=%s,header=%s" % (
+                T.get("dmode", "explicit"), ("yes" if T["header"] is not None else "no")
+                if T.get("hmode", "explicit") == "explicit" else "guessed"))
+    if H["blankcol"] is not None:
+        chk.count(f + "column_without_domain")
+    if any(st["T"]["filter"] != "0" for st in imps):
+        chk.count(f + "hook")
+    ps = hist_parts(a) or []
+    chk.count(f + "imports_succeeded=%d" % sum(1 for x in ps if x.startswith("ok ret=") and not x.startswith("ok ret=0 ")))
+    if any(isinstance(e, dict) and len(e["classes"]) > 1 for e in exps):
+        chk.count(f + "classification")
+
+
 def hook_ops(spec):
     return "none" if spec == "0" else "+".join(sorted({op for op, _ in parse_hook(spec)}))
 
@@ -931,6 +1382,9 @@ def nontrivial(kind, ln, answer):
         return d is not None and len(d["examples"]) >= 1 and len(d["cols"]) >= 2
     if kind == "var":
         return answer.startswith(("ok V", "ok S")) and answer.split()[2] != "0"
+    if kind == "hist":          # at least two imports that succeeded with examples
+        ps = hist_parts(answer) or []
+        return sum(1 for x in ps if x.startswith("ok ret=") and not x.startswith("ok ret=0 ")) >= 2
     if kind == "parse":
         return "22" in [t[4][i:i + 2] for i in range(0, len(t[4]), 2)] if t[4] != "-" else False
     if kind == "sniff":
@@ -960,12 +1414,14 @@ def run(chk, replay=None):
         def thaw(e):                    # the table oracle's expectation travels with the replay
             if isinstance(e, dict) and "either" in e:
                 return {"either": [thaw(x) for x in e["either"]]}
+            if isinstance(e, dict) and "hist" in e:
+                return {"hist": [thaw(x) for x in e["hist"]]}
             if isinstance(e, dict):
                 return dict(e, cols=[(c[0], c[1], tuple(c[2])) for c in e["cols"]],
                             examples=[(x[0], tuple(x[1])) for x in e["examples"]])
             return e
         exp = thaw(exp)
-        cases.append((k, rp["line"], None if k in ("xrff", "file") or rp["line"].startswith("var2 xrff")
+        cases.append((k, rp["line"], None if k in ("xrff", "file", "hist") or rp["line"].startswith("var2 xrff")
                       else rp["line"], exp, {"replay": True}))
     else:
         cdir = os.path.join(C.ROOT, "corpus", "C09")
@@ -974,9 +1430,10 @@ def run(chk, replay=None):
                 for ln in open(os.path.join(cdir, f)):
                     ln = ln.strip()
                     if ln and not ln.startswith("#"):
-                        cases.append((ln.split()[0], ln, ln, None, {"corpus": f}))
+                        k = ln.split()[0]       # (a history's model line needs the XRFF documents: built below)
+                        cases.append((k, ln, None if k == "hist" else ln, None, {"corpus": f}))
         ncsv = 1800 if quick else 14000
-        fams = ["general"] * 10 + ["clear"] * 3 + ["years"] * 2 + ["capsrow"] * 2 + ["unamb"] * 3
+        fams = ["general"] * 10 + ["clear"] * 3 + ["years"] * 2 + ["capsrow"] * 2 + ["unamb"] * 3 + ["unambq"] * 5
         for i in range(ncsv):
             T = gen_table(rng, chk.tier, rng.choice(fams))
             # {explicit, sniffed} delimiter x {explicit header / no-header, guessed}
@@ -999,7 +1456,10 @@ def run(chk, replay=None):
                 info["sniff_at"] = len(cases) + 1       # what does the sniffer say about this file?
                 cases.append(("csv", ln, ln, exp, info))
                 sl = "sniff " + hx(data)
-                cases.append(("sniff", sl, sl, None, {"aux": True}))
+                # on an unambiguous table the sniffer has to find the dialect the table was written with
+                sexp = "ok %d %d" % (T["delim"][0], 1 if T["header"] is not None else 0) \
+                    if T["family"] in ("unamb", "unambq") and len(T["rows"]) >= 2 else None
+                cases.append(("sniff", sl, sl, sexp, {"aux": True, "T": T}))
             else:
                 cases.append(("csv", ln, ln, exp, info))
             if i % 4 == 0 and T["ncols"] >= 2:
@@ -1038,6 +1498,10 @@ def run(chk, replay=None):
                     fexp = (xexp if as_x else exp) if isx == as_x else None
                     ln = "file %s %s %s" % (hx(ext), csv_line(T, data).split(" ", 1)[1].rsplit(" ", 1)[0], hx(content))
                     cases.append(("file", ln, None, fexp, {"T": T, "ext": ext, "content": "xrff" if as_x else "csv"}))
+        for _ in range(1000 if quick else 6000):
+            H = gen_history(rng, chk.tier)
+            ln, rend, exps = history_lines(H, rng=rng)
+            cases.append(("hist", ln, None, {"hist": exps}, {"H": H, "rendered": rend}))
         for _ in range(1000 if quick else 12000):
             data, d, h = gen_unambiguous(rng)
             ln = "sniff " + hx(data)
@@ -1071,6 +1535,13 @@ def run(chk, replay=None):
             else:
                 ml = "%s %s %s" % (t[0], t[-2], " ".join(toks[1:])) if toks and toks[0] == "doc" else None
             cases[i] = (c[0], c[1], ml, c[3], c[4])
+    hi = [i for i, c in enumerate(cases) if c[0] == "hist" and c[2] is None]
+    if hi:
+        pay = sorted({x for i in hi for x in hist_xml_payloads(cases[i][1])})
+        docs = dict(zip(pay, S.cpp(["xdoc " + x for x in pay])[0])) if pay else {}
+        for i in hi:
+            c = cases[i]
+            cases[i] = (c[0], c[1], history_model_line(c[1], docs), c[3], c[4])
     mi = [i for i, c in enumerate(cases) if c[2] is not None]
     model = {}
     if drv_ok:
@@ -1101,7 +1572,27 @@ def run(chk, replay=None):
                           rep, tags=tags)
             continue
         # 1. the table oracle (independent of Lean)
-        if isinstance(exp, dict) or exp == "exc":
+        if kind == "hist":
+            exps = exp["hist"] if isinstance(exp, dict) else []
+            known = sum(1 for e in exps if e is not None)
+            chk.count("oracle:history-" + ("table" if exps and known == len(exps) else "partial" if known else "none"))
+            if "H" in info:
+                count_history(chk, info["H"], info["rendered"], exps, a)
+            d = hist_oracle(ln, exps, a) if exps else None
+            if d and "H" in info and nshrunk < 3:
+                nshrunk += 1
+                sh = shrink_history(S, info["H"])
+                if sh is not None:
+                    H2, ln2, a2, rend2, exps2, d = sh
+                    rep = {"kind": kind, "line": ln2, "cpp": a2[:3000], "shrunk_from": ln[:400],
+                           "history": describe_history(rend2)}
+                    exp = {"hist": exps2}
+                    a = a2
+                    chk.count("shrunk")
+            rep["expected"] = exp
+            if d:
+                chk.violation("history on one dataframe object: " + d, rep, tags=tags)
+        elif isinstance(exp, dict) or exp == "exc":
             chk.count("oracle:either" if isinstance(exp, dict) and "either" in exp else
                       "oracle:table" if isinstance(exp, dict) else "oracle:exc")
             d = oracle_diff(exp, a)
@@ -1177,6 +1668,8 @@ def run(chk, replay=None):
                     same = strip(gm) == strip(gc) and lm == lc and Pm == Pc and cm == cc
                 else:
                     same = outcome_class(m) == outcome_class(a) and not m.startswith("ok")
+            elif kind == "hist":
+                same = hist_same(m, a)
             elif kind == "var":
                 if m.startswith("ok") and a.startswith("ok"):
                     vm = [(n, [(r[0], r[1]) for r in rows]) for n, _, rows in parse_vars(m, 2)]
